@@ -778,6 +778,27 @@ def run_check(prop, spec, tier, seed, scratch, workdir):
         for a in r["assumptions"]:
             assumptions.add("verus/%s: %s" % (unit, a))
         if r["undecided"]:
+            # Verus could not process the unit (typically: an edit introduced a construct outside its
+            # subset). Undecided -- unless a replay probe of one of the unit's functions finds a
+            # concrete input that breaks the contract on the real code: a failing execution is a
+            # violation whatever the verifier could digest.
+            import probes
+            found = []
+            for f in (r.get("extract") or {}).get("functions", []):
+                if f.get("mode") != "verify":
+                    continue
+                nm = f["select"].replace("fn ", "")
+                if probes.find_probe(nm):
+                    ok, info = probes.run_probe(prop, dict(function=nm), scratch, seed)
+                    if ok:
+                        found.append((nm, info))
+            if found:
+                for nm, info in found:
+                    obligations.append(dict(name="V:%s" % nm, engine="verus+probe", status="violation", detail=r["undecided"]))
+                    violations.append(dict(obligation="V:%s:contract-by-probe" % nm, engine="verus", unit=unit, function=nm,
+                                           message="unit not processable by Verus (%s); the replay probe found an input that breaks the contract" % r["undecided"][:200],
+                                           detail=info.get("output", "")[:1500], rendered=""))
+                continue
             undecided.append("V:%s: %s" % (unit, r["undecided"]))
             obligations.append(dict(name="V:%s" % unit, engine="verus", status="undecided", detail=r["undecided"]))
             continue
